@@ -1,8 +1,11 @@
 package sim
 
 import (
+	"fmt"
 	"github.com/yaricom/goNEAT/v4/neat"
 	"github.com/yaricom/goNEAT/v4/neat/genetics"
+	"runtime/debug"
+	"time"
 )
 
 // OrgSnap is what the harness remembers about an organism before a turnover.
@@ -164,6 +167,10 @@ func StepEpoch(c *RunCtx, w *World, withRec bool, eh *EpochHooks, lib func(strin
 		genetics.Verif = prev
 	}()
 	lib("NextEpoch", func() {
+		if s := CurrentSched; s != nil && w.IsParallel() && genetics.Verif != nil && genetics.Verif.Await != nil {
+			nextEpochGuarded(c, w, snap, s)
+			return
+		}
 		snap.Err = w.Exec.NextEpoch(w.Ctx, w.Gen, w.Pop)
 	})
 	w.Gen++
@@ -189,4 +196,56 @@ func PopShapeHash(pop *genetics.Population) uint64 {
 		h = Mix(h, uint64(len(o.Genotype.Genes)), uint64(len(o.Genotype.Nodes)), uint64(dis))
 	}
 	return h
+}
+
+// EpochHangAfter is how long a parallel turnover may stay without any scheduler event while no reproduction goroutine is
+// pending before it is taken for hung.
+var EpochHangAfter = 45 * time.Second
+
+// nextEpochGuarded runs a turnover of the parallel executor under the tape-driven scheduler on a goroutine of its own
+// and watches it: when every reproduction goroutine has ended (none pending), NextEpoch has not returned and the
+// scheduler has seen no event for EpochHangAfter, the turnover hangs - the parent waits for something no goroutine will
+// ever deliver (a wait-group count no task will decrement, a channel nobody sends on). With one task at a time and all
+// of them over this is a structural deadlock, the same for every replay of the tape; the wall-clock limit only decides
+// when to stop looking. C02 and C16 speak about the turnover succeeding, there it is a violation; elsewhere the run is
+// abandoned. A turnover that still has parked or running tasks and makes no progress is left to the worker's watchdog
+// (exit 2, scheduler trouble, never a verdict).
+func nextEpochGuarded(c *RunCtx, w *World, snap *EpochSnap, s *Sched) {
+	done := make(chan struct{})
+	var pv interface{}
+	var stack string
+	go func() {
+		defer close(done)
+		defer func() {
+			if r := recover(); r != nil {
+				pv, stack = r, trimStack(debug.Stack())
+			}
+		}()
+		snap.Err = w.Exec.NextEpoch(w.Ctx, w.Gen, w.Pop)
+	}()
+	last, since := s.Progress(), time.Now()
+	tick := time.NewTicker(100 * time.Millisecond)
+	defer tick.Stop()
+	for {
+		select {
+		case <-done:
+			if _, stop := pv.(stopRun); stop {
+				panic(pv) // a hook of the scenario ended the run from inside the turnover
+			}
+			if pv != nil {
+				panic(fmt.Sprintf("%v [%s]", pv, stack))
+			}
+			return
+		case <-tick.C:
+			if p := s.Progress(); p != last || s.Pending() != 0 {
+				last, since = p, time.Now()
+			} else if time.Since(since) > EpochHangAfter {
+				c.Count("observe.epoch_hang")
+				if c.Prop == "C02" || c.Prop == "C16" {
+					c.Fail("epoch-hang", "world [%s]: NextEpoch(generation %d) of the parallel executor does not return: every reproduction goroutine has ended and the parent still waits (no scheduler event for %v)", w.KindName, w.Gen, EpochHangAfter)
+				}
+				c.Skip("epoch-hang")
+			}
+		}
+	}
 }
